@@ -1065,7 +1065,12 @@ pub struct SuperImageVisitor<'a>(&'a DataType);
 
 impl<'a> Visitor<'a, Result<DataType>> for SuperImageVisitor<'a> {
     fn column(&self, column: &'a Column) -> Result<DataType> {
-        Ok(self.0[column.clone()].clone())
+        // An unknown (or ambiguous) column is an error, not a panic
+        self.0
+            .hierarchy()
+            .get(column)
+            .map(|data_type| (*data_type).clone())
+            .ok_or_else(|| Error::invalid_expression(column))
     }
 
     fn value(&self, value: &'a Value) -> Result<DataType> {
